@@ -44,6 +44,7 @@ Works with any hashable node type. Treats graph as undirected.
 from collections.abc import Callable, Iterable
 
 from solvor.types import Result
+from solvor.utils.helpers import recursion_limit
 
 __all__ = ["articulation_points", "bridges"]
 
@@ -117,10 +118,11 @@ def articulation_points[S](
                 low[v] = min(low[v], discovery[w])
 
     # Handle disconnected components
-    for v in node_list:
-        if v not in discovery:
-            parent[v] = _ROOT
-            dfs(v)
+    with recursion_limit(n + 2):  # a DFS path can visit every node
+        for v in node_list:
+            if v not in discovery:
+                parent[v] = _ROOT
+                dfs(v)
 
     return Result(ap, len(ap), iterations, n)
 
@@ -172,9 +174,10 @@ def bridges[S](
                 low[v] = min(low[v], discovery[w])
 
     # Handle disconnected components
-    for v in node_list:
-        if v not in discovery:
-            parent[v] = _ROOT
-            dfs(v)
+    with recursion_limit(n + 2):  # a DFS path can visit every node
+        for v in node_list:
+            if v not in discovery:
+                parent[v] = _ROOT
+                dfs(v)
 
     return Result(bridge_list, len(bridge_list), iterations, n)
